@@ -501,6 +501,13 @@ func (ef *Filter) filterTaggable(ctx context.Context, t Taggable, filterOverride
 			return fmt.Errorf("%s: %w", op, err)
 		}
 	}
+	// a taggable map is tracked even when none of its tags matched, so its
+	// fields without a tag are still filtered as secret data.
+	if tv := reflect.ValueOf(t); tv.Kind() == reflect.Map || (tv.Kind() == reflect.Ptr && tv.Elem().Kind() == reflect.Map) {
+		if err := tm.trackMap(&tMap{value: tv}); err != nil {
+			return fmt.Errorf("%s: %w", op, err)
+		}
+	}
 	return nil
 }
 
